@@ -26,7 +26,8 @@ RULE = (
     "generator tools owe nothing, unstarted chain/tee/groupby handles do); aclose of a library iterator "
     "raises nothing the doubles did not raise. tee: generated advance/close histories over 1-4 children, "
     "after every operation the source is released iff all children are done (closed/exhausted) and never "
-    "closed twice; groupby: advance/close histories over groups. Non-trivial: a close after 0 < j < len "
+    "closed twice; groupby: advance/close histories over groups; pipelines: compositions of 2-3 tools closed "
+    "after j items must release the innermost source. Non-trivial: a close after 0 < j < len "
     "items, a fault while another source is live, an unstarted handle, or >= 2 sources. One evaluation = one run."
 )
 ASSUMPTIONS = [
@@ -364,8 +365,31 @@ def check_groupby(case):
         close_orphans(ctx)
 
 
+def check_pipeline(case):
+    from ..pipelines import run_both
+
+    outcome, events_s, src, ctx_a, ctx_s, released, close_errors = run_both(case)
+    expect_return(outcome, "C04/pipeline")
+    if close_errors:
+        raise Violation("C04/pipeline/aclose-raises", f"stages={case['stages']} mode={case['mode']} {close_errors[0]}")
+    # the tool holding the source was advanced iff the source was pulled at least once
+    advanced = src.pulls > 0
+    lends = any(name == "borrow" for name, _ in case["stages"])  # a borrowed source is never owed a close
+    if case["fl"] in ASYNC_CLOSEABLE and advanced and not lends and not released:
+        raise Violation("C04/pipeline/source-not-released", f"stages={case['stages']} take={case['take']} "
+                        f"mode={case['mode']} fl={case['fl']}")
+
+
+def pipeline_nontrivial(case):
+    return case["fl"] in ASYNC_CLOSEABLE and case["take"] is not None and 0 < case["take"] <= len(case["items"])
+
+
 def shards(tier):
-    out = [
+    from ..pipelines import pipelines
+
+    out = [Shard(f"pipelines-{i}", check_pipeline, strategy=pipelines(3 if tier == "quick" else 4), n=1500,
+                 nontrivial=pipeline_nontrivial, thorough_mult=15) for i in range(4)]
+    out += [
         Shard(name, check, strategy=cases(name, tier), n=60, nontrivial=lambda c: False,
               thorough_mult=25)
         for name in ALL
